@@ -92,6 +92,27 @@ def alias(ctx, *args):
     return True
 
 
+_LEGACY = {}
+
+
+def _refers_to_old(tid):
+    """names of options whose conditions / default values mention a deprecated name (left-over references)"""
+    if tid not in _LEGACY:
+        import re
+        from ..trees import dsl
+
+        old = set(rename_map(tid))
+        acc = set()
+        t = ST.get_tree(tid)
+        for n, _ in dsl.all_cfgs(t) if t else []:
+            texts = [n.prompt_if] + list(n.depends) + [c for _, c in n.defaults] + [v for v, _ in n.defaults]
+            for e in texts:
+                if e and old & set(re.findall(r"[A-Za-z_][A-Za-z0-9_]*", e)):
+                    acc.add(n.name)
+        _LEGACY[tid] = acc
+    return _LEGACY[tid]
+
+
 def block(ctx, *args):
     tid, dom, slots, vals = decode_state(ctx, args)
     fs = MemFS()
@@ -109,7 +130,10 @@ def block(ctx, *args):
     # explicitly requested: the entries evaluate in expressions to the values that were written
     c = ST.build(tid, renames=True)
     c.load_config("/m/with", load_deprecated=True)
-    if ST.values(c) != ST.values(k):
+    # (an option whose own expressions still refer to a deprecated name legitimately changes when those names get
+    #  values -- that is the purpose of loading the block; every other option keeps its value)
+    legacy = _refers_to_old(tid)
+    if [x for x in ST.values(c) if x[0] not in legacy] != [x for x in ST.values(k) if x[0] not in legacy]:
         return False
     kinds = {sl.name: sl.kind for sl in slots if sl.kind != "pick"}
     for old, (new, inv) in rename_map(tid).items():
